@@ -1148,7 +1148,19 @@ macro_rules! ext_mod {
                                 let o = annot_order(ext, i);
                                 let bytes = ser(&ext.graphs[i], t[2]).unwrap();
                                 match de(&bytes, t[2]) {
-                                    Err(m) => format!("err"),
+                                    Err(m) => {
+                                        if !ctx.quiet && ctx.oracles.iter().any(|o| o == "c12") {
+                                            // the serialised form names the members' own edges: if every one of them ends at a member,
+                                            // the document declares every key it uses and must be accepted
+                                            let (nodes, lists) = denotation(&ext.graphs[i]);
+                                            let members: BTreeSet<usize> = nodes.iter().map(|x| x.0).collect();
+                                            let closed = lists.iter().all(|(_, out, _)| out.iter().all(|(v, _)| members.contains(v)));
+                                            if closed {
+                                                ctx.fail(case, li, "c12", format!("{} round trip: every edge of a member ends at a member, yet deserialising the serialised container failed: {m}", t[2]));
+                                            }
+                                        }
+                                        format!("err")
+                                    }
                                     Ok(g2) => {
                                         if !ctx.quiet && ctx.oracles.iter().any(|o| o == "c12") {
                                             if let Err(m) = crate::oracle_cont::same_graph(DIRECTED, &denotation(&ext.graphs[i]), &denotation(&g2)) {
